@@ -6,6 +6,7 @@ import (
 	"strings"
 	"testing"
 	"unicode"
+	"unicode/utf8"
 
 	"github.com/c4pt0r/kvql"
 	"pgregory.net/rapid"
@@ -136,7 +137,23 @@ func checkC17(c *c17Case) (msg string, nontrivial bool, labels []string) {
 	}
 	if !refOK {
 		for _, tk := range kvql.NewLexer(q).Split() {
+			// whatever the lexer makes of an undocumented blank (form feed,
+			// NBSP), no token begins ON a blank
+			if r, _ := utf8.DecodeRuneInString(q[min(tk.Pos, len(q)):]); tk.Pos < len(q) && unicode.IsSpace(r) {
+				continue
+			}
 			starts[tk.Pos] = true
+		}
+	}
+	if !refOK {
+		// the reference reads an undocumented blank as a word byte: its token
+		// starts on such a blank are not token starts under either reading
+		for p := range starts {
+			if p > 0 && p < len(q) {
+				if r, _ := utf8.DecodeRuneInString(q[p:]); unicode.IsSpace(r) {
+					delete(starts, p)
+				}
+			}
 		}
 	}
 	lead := len(q) - len(strings.TrimLeftFunc(q, unicode.IsSpace))
@@ -298,6 +315,9 @@ func TestC17Typed(t *testing.T) {
 func widenSpaces(rt *rapid.T, q string) string {
 	var sb strings.Builder
 	quote := byte(0)
+	// one statement in four gets such a blank behind every space, so that
+	// whichever token the error lands on is preceded by one
+	oddEverywhere := rapid.IntRange(0, 3).Draw(rt, "oddBlankEverywhere") == 0
 	for i := 0; i < len(q); i++ {
 		ch := q[i]
 		switch {
@@ -310,6 +330,13 @@ func widenSpaces(rt *rapid.T, q string) string {
 		case ch == ' ':
 			if rapid.IntRange(0, 3).Draw(rt, "widen") == 0 {
 				sb.WriteString(strings.Repeat(" ", rapid.IntRange(1, 3).Draw(rt, "extraBlanks")))
+			}
+			if oddEverywhere || rapid.IntRange(0, 15).Draw(rt, "oddBlank") == 0 {
+				// a blank the documentation does not mention, behind a space
+				// and in front of the next token
+				sb.WriteByte(ch)
+				sb.WriteString(rapid.SampledFrom([]string{"\f", "\v", "\u00a0", "\u3000"}).Draw(rt, "oddBlankRune"))
+				continue
 			}
 		}
 		sb.WriteByte(ch)
